@@ -160,8 +160,11 @@ def judgeCase : Hist → List (Op × Ans) → List Verd
   | _, [] => []
   | h, (op, ans) :: rest =>
     match op with
-    | .write sh name tags pts => judgeCase (h.write sh name tags (pts.map (·.1))) rest
-    | .del lo hi pred _ => judgeCase (h.delete lo hi pred) rest
+    -- only acknowledged history ops count
+    | .write sh name tags pts =>
+      judgeCase (match ans with | .other "ok" => h.write sh name tags (pts.map (·.1)) | _ => h) rest
+    | .del lo hi pred _ =>
+      judgeCase (match ans with | .other "ok" => h.delete lo hi pred | _ => h) rest
     | .mn .. | .tk .. | .tv .. => judgeQuery h.live op ans :: judgeCase h rest
     | _ => judgeCase h rest
 
